@@ -53,7 +53,15 @@ MANIFEST = {
             "C18_physical_channel_le_capacity for any number of names and access points, C18_budget_per_name_counterexample, the "
             "index of the budget read from the source (C18_gen_air_keys); the rig keeps its own per-hz sum of what was handed to "
             "AirSpace.transmit and never depends on the shape of the implementation's dict (an unreadable container is a broken "
-            "correspondence obligation followed by search, not an internal error).",
+            "correspondence obligation followed by search, not an internal error). Round 7b: 'the value tested is the value stored' — "
+            "frames are shared mutable objects that grow (stamps) while a switch offers them to port after port: the translated bodies "
+            "carry OPTIONAL parameters (.arg / .argNone / .setArg / .ifCanWith; quantified over as soon as a call site passes one, "
+            "Gen.LinkBody.canArgPassed / sendArgPassed), so an admission test fed a size measured earlier has no proof "
+            "(C18_gen_link_can_transmit_body, C18_gen_switch_send_body) while a parameter nobody passes re-proves; the rig's wrappers "
+            "pass on whatever else a caller hands over, record per frame object the smallest / largest size it had and where it was "
+            "offered, and the enumerated family 'tight-bandwidth flood' (3-4 hosts on a switch, every ordered pair, ping / unknown "
+            "unicast / broadcast, each link in turn at every bandwidth around the measured sizes) checks the rig's own account of the "
+            "bytes that crossed, measured at crossing time.",
     "note": "C18-specific: frame sizes (JSON length of the frame, F-9) and the far interface's accept/reject answer are inputs to the "
             "model, not predicted (the answer is compared with C08's acceptance model); IEEE-754 behaviour (exact when representable, "
             "monotone) is assumed, not verified; which software raises is not predicted (an exception is an input event).",
@@ -155,6 +163,14 @@ def run(ctx: Ctx):
     rng = ctx.rng.fork("link")
     for k in range(n):
         cases.append((f"gen:{k}", rig.gen_case(rng, max_ops=ctx.scale(12, 20))))
+    # family "tight-bandwidth flood" (enumerated, not sampled): see rig.flood_family_cases
+    try:
+        fl = rig.flood_family_cases(ctx.rng.fork("flood"), thorough=ctx.thorough, inventory=inv)
+        cases += fl
+        ctx.cov["flood_family_cases"] = len(fl)
+    except Exception as e:
+        ctx.oblige("the tight-bandwidth flood family can be built (reference runs on a switch with 3 hosts)", "correspondence", False,
+                   f"{type(e).__name__}: {e}")
     srng = ctx.rng.fork("scenario")
     for k in range(ctx.scale(8, 120)):
         cases.append((f"scn:{k}", rig.gen_scenario_case(srng, max_steps=ctx.scale(25, 60))))
@@ -244,6 +260,8 @@ def run(ctx: Ctx):
                 ctx.count("topo:wireless-two-names-different-capacities")
         if "topo" in case and case["topo"].get("power_family"):
             ctx.count("family:power-transitions (countdowns ticked with traffic, enable refused, same-tick disable request)")
+        if "topo" in case and case["topo"].get("flood_family"):
+            ctx.count("family:tight-bandwidth-flood:" + case["topo"]["flood_family"])
         if "topo" in case and case["topo"].get("aliased_channel_family"):
             ctx.count("family:aliased-channel (two names on one hz, both send in one tick)")
         maxdepth = max(maxdepth, d)
